@@ -29,7 +29,7 @@ ASSUMPTIONS = ['an invariant over single calls; argument-shape breadth is input 
                'a lambda that itself calls a mutator is the lambda\'s doing (not generated in the own workload)']
 REAL = ['smartquery.functions (every table entry)', 'evaluator']
 STUB = ['host (owner of the objects passed in)', 'entropy source']
-REACH_PROBES = ('big_nested_host_list', 'failed_multiline_parse', 'builtin_raised_with_container_arg', 'pipeline', 'host_defaultdict_arg', 'key_function', 'every_nonmutator_called')
+REACH_PROBES = ('big_nested_host_list', 'failed_multiline_parse', 'builtin_raised_with_container_arg', 'pipeline', 'host_defaultdict_arg', 'key_function', 'every_nonmutator_called', 'ast_built_lambda_over_records')
 
 
 def _world(r):
@@ -50,6 +50,12 @@ def generate(seed, tier):
             ops.append({'op': 'src', 'src': ro.choice(['get(BIGD, "series") | len', 'BIGD["series"] | len', '(BIGD | values) | max | len',
                                                        '(BIGD | values) | reduce((p, q) => p) | len', 'BIGD | get("series") | index_of(3)',
                                                        '[BIGD["series"]] | min | len', 'BIGD | items | len']), 'entropy': 1})
+            continue
+        if x < 0.03:
+            # the host hands over a lambda built as a syntax tree (ast_names) whose body is a small PROGRAM - it assigns to
+            # its parameters - and a non-mutator drives it over host records: the records stay as they are
+            ops.append({'op': 'src', 'ast': True, 'entropy': 1,
+                        'src': ro.choice(['DL | map(af)', 'map(DL, af)', 'DL | filter(af)', 'sorted(DL, af)', 'ND | map(af)', 'DL | map(af) | len'])})
             continue
         if x < 0.075:
             # a multi-line text rejected on its last line; whatever its first lines say must not run - now or later
@@ -124,7 +130,14 @@ def execute(case, ctx):
         if with_big:
             names['BIGD'] = bigd          # only bound for the calls that use it (snapshots of 10^4 elements are slow)
         before = canon.snap(names)
-        rout = real_eval(parser, src, names, budget=20000, rec=rec)
+        ast = None
+        if op.get('ast'):
+            from smartquery.ast_ops import LambdaOp, NameOp
+            ast = {'af': LambdaOp(args=[NameOp('k'), NameOp('n')], expr=boot.fresh_parser().parse('k = 5\nn2 = 7\nk'))}
+            ctx.probe('ast_built_lambda_over_records')
+        rout = real_eval(parser, src, names, budget=20000, rec=rec, ast_names=ast)
+        if ast:
+            names.pop('af', None)
         after = canon.snap(names)
         names.pop('BIGD', None)
         ctx.event(step, used, rout.kind, canon.digest(rout.brief()))
